@@ -20,7 +20,7 @@ WRITERS = ('default', 'LuaEchoWriter', 'LuaASTEchoWriter', 'LuaMinifyWriter',
            'LuaMinifyTokenWriter', 'LuaFormatterWriter',
            'LuaFormatterTokenWriter', 'PureLuaWriter')
 PRIORS = ('absent', 'cart', 'garbage', 'empty')
-LIB_ROUTES = ('lib', 'lib-overwrite')
+LIB_ROUTES = ('lib', 'lib-overwrite', 'lib-twice')
 CLI_ROUTES = ('writep8', 'luamin', 'luafmt', 'luafmt-overwrite', 'build',
               'build-minify', 'luamin-2files', 'writep8-2files')
 EXT = {'p8': '.p8', 'png': '.p8.png'}
@@ -51,6 +51,7 @@ def _writer_classes():
         """Yields `after` lines, then raises; only on pass number `on_pass`
         (the .p8 formatter runs the writer twice: sanity pass, then output)."""
         passes = [0]
+        raised = [0]
 
         def to_lines(self):
             self.passes[0] += 1
@@ -58,10 +59,12 @@ def _writer_classes():
             for line in super().to_lines():
                 if self.passes[0] >= self._args.get('on_pass', 1) and \
                         n >= self._args.get('after', 0):
+                    self.raised[0] += 1
                     raise self._exc()('writer failed after %d lines' % n)
                 n += 1
                 yield line
             if self.passes[0] >= self._args.get('on_pass', 1):
+                self.raised[0] += 1
                 raise self._exc()('writer failed at end')
 
         def _exc(self):
@@ -72,7 +75,10 @@ def _writer_classes():
                     'util.Error': util.Error,
                     'InvalidP8DataError': util.InvalidP8DataError,
                     'StopIteration': StopIteration,
-                    'SystemExit': SystemExit}[
+                    'SystemExit': SystemExit,
+                    'AssertionError': AssertionError,
+                    'IndexError': IndexError,
+                    'FileNotFoundError': FileNotFoundError}[
                 self._args.get('exc', 'RuntimeError')]
 
     class GarbageWriter(lua.BaseLuaWriter):
@@ -95,6 +101,9 @@ def _writer_classes():
             'NotBytesWriter': NotBytesWriter}
 
 
+_LAST_RAISER = [None]
+
+
 def writer_class(name):
     from pico8.lua import lua
     if name in (None, 'default'):
@@ -105,6 +114,8 @@ def writer_class(name):
     cls = classes[name]
     if name == 'RaiseAfterWriter':
         cls.passes[0] = 0
+        cls.raised[0] = 0
+        _LAST_RAISER[0] = cls
     return cls
 
 
@@ -116,6 +127,11 @@ def matrix():
                   for w in WRITERS for p in PRIORS]           # 64
     lib_combos += [('lib-overwrite', f, w, 'cart') for f in ('p8', 'png')
                    for w in WRITERS]                            # 16
+    # a successful write of another cart to the same destination comes first
+    lib_combos += [('lib-twice', f, w, p) for f in ('p8', 'png')
+                   for (w, p) in (('default', 'absent'),
+                                  ('LuaMinifyWriter', 'cart'),
+                                  ('LuaFormatterWriter', 'garbage'))]  # 6
     cli_combos = []
     for r in ('writep8', 'luamin', 'luafmt'):
         for f in ('p8', 'png'):
@@ -168,6 +184,9 @@ def base_scenario(rng, index):
         flags = rng.choice([[], ['--indentwidth', '4'],
                             ['--indentwidth', '0']])
     sc['cli_flags'] = flags
+    # where the system keeps temporary files: sometimes the very directory
+    # the destination lives in
+    sc['tmpdir'] = rng.choice([None, None, None, 'out', 'in', 'out'])
     sc['global_flags'] = rng.choice([[], [], ['-q'], ['--debug']])
     if route.startswith('build'):
         sc['build'] = {
@@ -200,7 +219,10 @@ INTERNAL_FAULTS = (
                        (0, 2, 'util.Error'), (1, 2, 'NotImplementedError'),
                        (3, 2, 'InvalidP8DataError'), (99, 2, 'KeyError'),
                        (2, 1, 'StopIteration'), (2, 2, 'SystemExit'),
-                       (0, 1, 'NotImplementedError'))] +
+                       (0, 1, 'NotImplementedError'),
+                       (2, 1, 'AssertionError'), (3, 2, 'IndexError'),
+                       (1, 1, 'IndexError'), (4, 2, 'AssertionError'),
+                       (1, 1, 'FileNotFoundError'))] +
     [{'kind': 'WRITER-BASE'}] +
     [{'kind': 'WRITER-GARBAGE', 'which': w}
      for w in ('GarbageWriter', 'UnterminatedWriter', 'NotBytesWriter')] +
@@ -213,7 +235,8 @@ INTERNAL_FAULTS = (
                'dest-garbage', 'dest-truncated-png')] +
     [{'kind': 'RECURSION', 'limit': n} for n in (60, 90, 120, 160, 220)] +
     [{'kind': 'ROM-DEST'}, {'kind': 'ROM-DEST'}, {'kind': 'TMP-ERR'},
-     {'kind': 'TMP-ERR'}]
+     {'kind': 'TMP-ERR'}, {'kind': 'WARN-STREAM-ERR'},
+     {'kind': 'WARN-STREAM-ERR'}]
 )
 CLI_INTERNAL_FAULTS = (
     [{'kind': 'ARG-BAD', 'how': h}
@@ -241,7 +264,7 @@ def _dest_rel(sc):
         # .rom is a recognised cart type whose encoder is not implemented:
         # a natural "encoder raises"
         return 'out/dest.rom'
-    if r == 'lib':
+    if r in ('lib', 'lib-twice'):
         return 'out/dest' + EXT[sc['fmt']]
     if r in ('lib-overwrite', 'luafmt-overwrite'):
         return 'in/src' + EXT[sc['src_fmt']]
@@ -376,6 +399,13 @@ def _setup(w, sc):
             elif how == 'dest-truncated-png':
                 w.put(dest_rel, refcodec.encode_p8png(cart)[:900])
         cls = writer_class(wname)
+        if route == 'lib-twice':
+            # an earlier, successful write (not under fault injection)
+            first = refcodec.cart_from_spec(sc['prior_cart'])
+            w.put('in/first.p8', refcodec.encode_p8(first))
+            if sc['prior'] == 'garbage' and sc['fmt'] == 'png':
+                os.unlink(dest)       # a garbage label source would fail it
+            pfile.to_file(pfile.from_file(w.p('in/first.p8')), dest)
 
         def op():
             pfile.to_file(g, dest, lua_writer_cls=cls, lua_writer_args=wargs,
@@ -467,7 +497,10 @@ def execute(sc, profile=False):
     fault = sc.get('fault')
     fk = fault['kind'] if fault else 'NONE'
     recursion = fault['limit'] if fk == 'RECURSION' else None
-    with world.World() as w:
+    wenv = {}
+    if sc.get('tmpdir'):
+        wenv['TMPDIR'] = '$ROOT/' + sc['tmpdir']
+    with world.World(env=wenv) as w:
         try:
             dest_rel, op = _setup(w, sc)
         except Exception as e:
@@ -501,6 +534,16 @@ def execute(sc, profile=False):
         rc = None
         base_limit = sys.getrecursionlimit()
         w.start_io_log()
+        if fk == 'WARN-STREAM-ERR':
+            from pico8 import util as _util
+
+            class _Broken:
+                hits = 0
+
+                def write(self, msg):
+                    _Broken.hits += 1
+                    raise BrokenPipeError('injected: error stream is closed')
+            _util._error_stream = _Broken()
         tmp_saved = None
         tmp_hits = [0]
         if fk == 'TMP-ERR':
@@ -548,6 +591,8 @@ def execute(sc, profile=False):
             fired = 'CRASH' if tracer.fired else None
         elif fk == 'TMP-ERR':
             fired = fk if tmp_hits[0] else None
+        elif fk == 'WARN-STREAM-ERR':
+            fired = fk if _Broken.hits else None
         elif fk != 'NONE':
             fired = fk if failed else None
         if fired:
@@ -601,6 +646,28 @@ def execute(sc, profile=False):
                         world.describe_exc(exc, w) if exc else
                         'rc=%r encoder_failed=%s' % (rc, encoder_failed),
                         dest_rel, kind, _snapdesc(before), _snapdesc(after)))
+        if fk == 'WRITER-RAISE' and _LAST_RAISER[0] is not None and \
+                _LAST_RAISER[0].raised[0] and not failed:
+            fired = 'WRITER-RAISE'
+        if fired and not failed and bad_i is None and befores != afters:
+            # the fault fired, yet success is reported and the destination
+            # changed: fine if the operation recovered and wrote the cart it
+            # was asked to write; a swallowed failure that leaves something
+            # else behind is a damaged destination
+            problem = _not_the_intended_cart(sc, w, dests[0], afters[0])
+            if problem:
+                core.bump(res['probes'], 'success-reported-after-fault')
+                core.violation(
+                    res, 'C11', 'C11:failure-swallowed-dest-damaged',
+                    'C11|%s|%s|%s|failure swallowed' % (
+                        sc['route'], sc['fmt'], fk),
+                    'route=%s fmt=%s fault=%s fired, the operation reported '
+                    'success, and the destination %s is now neither what it '
+                    'was nor the cart that was to be written: %s' % (
+                        sc['route'], sc['fmt'], core.dumps(fault), dests[0],
+                        problem))
+            else:
+                core.bump(res['probes'], 'recovered-after-fault')
         if not failed and not op_failed and fired is None and fk != 'NONE':
             res['informative'] = False
         # probes
@@ -645,7 +712,8 @@ def execute(sc, profile=False):
                    fault, outcome, ctl['writes'], ctl['entered'],
                    ctl['returned'], core.sha(after[2] or b'')[:16],
                    world.describe_exc(exc, w) if exc else None,
-                   [o for o in opens if o[1] == 'w']))
+                   _stable_opens(opens, files_before | files_after |
+                                 set(dests))))
         res['_ctl'] = {'writes': ctl['writes'], 'entered': ctl['entered'],
                        'returned': ctl['returned']}
         res['_failed'] = failed
@@ -653,6 +721,49 @@ def execute(sc, profile=False):
             res['_profile'] = tracer.profile
             res['_steps'] = tracer.steps
     return res
+
+
+def _not_the_intended_cart(sc, w, dest_rel, snap):
+    """-> description of the problem, or None if the destination holds the
+    cart that the operation was asked to write (data regions; the code too
+    when the writer is echo-like)."""
+    if sc['route'].startswith('build') or not snap[1]:
+        return None
+    if dest_rel.endswith('.rom'):
+        return 'a .rom file was written although that encoder does not exist'
+    try:
+        got = refcodec.decode_any(dest_rel, snap[2])
+    except (refcodec.RefCodecError, core.HarnessError) as e:
+        return 'not a decodable cart: %s' % e
+    want = refcodec.cart_from_spec(sc['cart'])
+    for k in refcodec.REGIONS:
+        if got[k] != want[k]:
+            return 'region %s differs from the cart being written' % k
+    fault = sc.get('fault') or {}
+    echo_like = sc['route'] in ('lib', 'lib-overwrite', 'lib-twice',
+                                'writep8', 'writep8-2files') and (
+        fault.get('kind') == 'WRITER-RAISE' or
+        sc.get('writer') in (None, 'default', 'LuaEchoWriter'))
+    if echo_like and got['code'].rstrip(b'\n') != want['code'].rstrip(b'\n'):
+        return 'code is %r..., the cart being written has %r...' % (
+            got['code'][:80], want['code'][:80])
+    return None
+
+
+def _stable_opens(opens, known):
+    """Write-opens for the event log; transient files with random names
+    (temporary files when TMPDIR points into the store) are reduced to their
+    directory so that the log stays a function of the scenario."""
+    out = []
+    for path, mode in opens:
+        if mode != 'w':
+            continue
+        rel = path[len('$ROOT/'):] if path.startswith('$ROOT/') else path
+        if rel in known:
+            out.append(path)
+        else:
+            out.append(os.path.dirname(path) + '/<transient>')
+    return out
 
 
 def _stack_depth():
@@ -796,6 +907,11 @@ def run_job(job):
                 sc['cart'] = cart
             if fl['kind'] == 'LABEL-BAD' and base['fmt'] != 'png':
                 continue
+            if fl['kind'] == 'WARN-STREAM-ERR':
+                # enough tokens to make the writer warn on the (broken)
+                # error stream in the middle of producing the cart
+                sc['cart'] = dict(sc['cart'], code=core.enc_bytes(
+                    b'x=1 ' * 2800 + b'\n'))
             out.append((sc, core.isolated(execute, sc)))
     else:
         raise core.HarnessError(kind)
